@@ -567,7 +567,7 @@ func TestVerifC16Cipher(t *testing.T) {
 		vC16CipherRun(k, vL(vZ(8), vB(bytes.Repeat([]byte{byte(v)}, 16)), vI(16)))
 		vC16CipherRun(k, vL(vZ(8), vB(bytes.Repeat([]byte{byte(v)}, 32)), vI(16)))
 	}
-	n := k.N(1500, 40000)
+	n := k.N(1500, 20000)
 	for i := 0; i < n; i++ {
 		vC16CipherRun(k, vC16CipherGen(k, k.rnd))
 	}
